@@ -6,7 +6,7 @@ import logging
 from abc import ABC, abstractmethod
 from asyncio.exceptions import CancelledError
 from asyncio.streams import StreamReader, StreamWriter, start_server
-from asyncio.tasks import Task, create_task
+from asyncio.tasks import Task, create_task, sleep
 from pathlib import Path
 from typing import TYPE_CHECKING, Any, Generic, TypeVar
 
@@ -153,7 +153,11 @@ class ControlServer(ABC, Generic[ClientT]):
         self._server = await self._get_server_instance(
             self._client_connected_cb, **self._server_kwargs
         )
-        return create_task(self._serve_forever())
+        task = create_task(self._serve_forever())
+        # Let the task take its first step before anyone can cancel it;
+        # a task cancelled before it started would never close the server.
+        await sleep(0)
+        return task
 
 
 class TCPControlServer(ControlServer[TCPControlClient]):
